@@ -125,11 +125,18 @@ class NetSim(BaseEngine):
                         msgs.append({'type': pick(rng, ('clock', 'tune_request'))})
                 rts = []
                 cuts = [10 ** 9]
+                if rng.random() < 0.5:
+                    # everything (a whole number of kibibytes) and the disconnect are pending before the first read
+                    total = sum(len(model.ref_bytes(d)) for d in msgs)
+                    pad = (-total - 2) % 1024
+                    msgs.append({'type': 'sysex', 'data': [7] * pad})
+                    plan['kib_aligned'] = True
             plan.update({'msgs': msgs, 'rt': rts, 'cuts': cuts,
                          'end': 'rst' if rng.random() < 0.2 else 'fin',
                          'segs': [[pick(rng, (0.0, 0.0, 0.0003, 0.002, 0.05)), pick(rng, (1, 1, 2, 3, 5, 64))]
-                                  for _ in range(rng.randint(1, 6))] if cuts is None else [[0.001, 4096]],
-                         'fin_dt': pick(rng, (0.0, 0.0, 0.001, 0.1)),
+                                  for _ in range(rng.randint(1, 6))] if cuts is None else
+                         ([[0.0, 1 << 22]] if plan.get('kib_aligned') else [[0.001, 4096]]),
+                         'fin_dt': 0.0 if plan.get('kib_aligned') else pick(rng, (0.0, 0.0, 0.001, 0.1)),
                          'consumer': pick(rng, CONSUMERS), 'via': pick(rng, ('conn', 'connect')),
                          'poll_advance': pick(rng, (0.0005, 0.004, 0.3))})
         elif scn == 2:
